@@ -100,13 +100,16 @@ def SpecSt.fail (st : SpecSt) (why : String) : SpecSt :=
 /-- Conservative "must be routable" rule for a missed lookup of `k` (no false alarm by construction):
     some watcher `w` whose Close had not started when the lookup ended has completed — before the
     lookup started — an update listing `k`, every update ever started through `w` lists `k` and
-    carries `w`'s own name, and (service router only) no update of a differently named target ever listed `k`. -/
+    carries `w`'s own name. On the service router the key may be routed to another lister (conflict: the earlier
+    claimant keeps it; fix D31: a released key is handed over), but it is never absent. -/
 def guaranteed (st : SpecSt) (k : Nat) (doneAtStart : List Nat) : Option Nat :=
   let ok (w : Nat × Nat) : Bool :=
     !st.closeStarted.contains w.1 &&
     st.issued.any (fun u => u.wid = w.1 && doneAtStart.contains u.ver) &&
     st.issued.all (fun u => u.wid ≠ w.1 || (u.svcs.contains k && u.name = w.2)) &&
-    (!st.svc || st.issued.all (fun u => u.name = w.2 || !u.svcs.contains k))
+    -- (service router, since fix D31) a differently named target listing `k` does not matter any more:
+    -- whoever owns the key, it is routed as long as `w` keeps listing it (owner, or claimant handed over to)
+    true
     -- older watchers of the same name do not matter: on a correct router they are fully closed before
     -- this one could be created, and their straggling updates are no-ops
   (st.wname.find? ok).map (·.1)
@@ -358,6 +361,14 @@ def handleStress (mode : String) (out : List String) : String :=
         else if mau > 0 then s!"VIOL gap: route of a live watcher not found after UpdateDesc returned ({mau}) {first}"
         else "OK nt b=stress-close"
       | _, _, _ => "BAD stress close output"
+    else if mode = "handover" then
+      match kvNat out "miss", kvNat out "ownAfterClose", kvNat out "mix" with
+      | some m, some o, some x =>
+        if o > 0 then s!"VIOL resurrected: after a hand-over a lookup was routed to a target whose Close had returned ({o}) {first}"
+        else if m > 0 then s!"VIOL gap: contested service absent although a live target lists it in every description ({m}) {first}"
+        else if x > 0 then s!"VIOL mixture: ({x}) {first}"
+        else "OK nt b=stress-handover"
+      | _, _, _ => "BAD stress handover output"
     else if mode = "claim" then
       match kvNat out "later", kvNat out "miss", kvNat out "mix" with
       | some l, some m, some x =>
